@@ -6,7 +6,6 @@ def wit(fid):
     return {"profile": r["profile"], "scenario": r["scenario"], "signature": r["signature"]}
 known = [
  ("F4", ["C03", "C04"], "Projection.commute moves a projection upstream of a Deduplication when backtracking (sql_leaf.transferred_to(it).without_duplicates().with_only_columns({a}, preferred_engine=sql) returns [1,2] instead of [1,1,2]); tests/test_projection.py::test_backtracking_apply pins this move, so it cannot be repaired without editing the suite"),
- ("F15", ["C08"], "a join whose operands read the same table (leaf.join(leaf)) compiles to FROM t JOIN t without aliases; SQLite: 'ambiguous column name' (needs automatic aliasing - not small)"),
  ("F16", ["C08"], "a chain whose operand is itself a chain compiles to a parenthesised compound SELECT, which SQLite rejects (near \"(\": syntax error); the parenthesised strings are pinned by tests/test_sql_engine.py::test_chains"),
  ("F19", ["C08"], "it_leaf.join(it_leaf2) is accepted by the factory; iteration.Engine.execute() then raises EngineError('Joins are not supported by the iteration engine') - a documented limitation, but an unsupported-node error after acceptance"),
 ]
@@ -31,6 +30,7 @@ fixed = [
  ("F25", "C08", "5ceda30", "a.chain(b).sorted([<expression that is not a plain column>]) compiled to UNION ... ORDER BY c + c, rejected by SQLite (and the SQL standard)"),
  ("F7", "C08", "1df0832", "S.sorted([b]).with_only_columns({a,c}).without_duplicates().with_only_columns({a}) accepted, then to_executable() raised KeyError: b"),
  ("F13", "C17", "43da33b", "S.with_calculated_column(x, e).with_only_columns({a}): Select.skip_to was the Calculation that the Select's own Projection had elided from the target chain"),
+ ("F15", "C08", "950a975", "leaf.join(leaf): FROM t JOIN t without aliases; SQLite 'ambiguous column name'"),
  ("F27", "C08", "149b8d5", "identity_in_sql.join(rel_in_iteration) accepted: Select marker around an iteration-engine relation; process() AssertionError in Select.reapply; also C20 (engine mismatch not rejected), C14"),
  ("F26", "C14", "8ebe476", "sql_rel.transferred_to(sql) returned a new Select around sql_rel (not the relation itself), burying an un-sliced sort; found through C08 (order-loss error raised only by process())"),
 ]
